@@ -53,6 +53,9 @@ func (s *sorts) of(t types.Type) string {
 	case *types.Named:
 		if isNodeType(u) {
 			if _, ok := u.Underlying().(*types.Struct); ok {
+				if strings.Contains(u.Obj().Pkg().Path(), "/languages/") && strings.HasSuffix(u.Obj().Name(), "Context") {
+					return "Int" // a rule context copied by value denotes the same tree node: its identity
+				}
 				return s.opq(u.Obj().Pkg().Name() + "_" + u.Obj().Name())
 			}
 			if b, ok := u.Underlying().(*types.Basic); ok {
